@@ -84,7 +84,33 @@ def rhd_case(rng, i):
         cfg["dump_interval"] = 1e30
     if toggles["restart"]:
         cfg["dump_interval"] = 0.
-    return dict(mode="rhd", cfg=cfg, toggles=toggles, threads=rng.choice([1, 4]), steps=rng.choice([2, 3, 4]))
+    case = dict(mode="rhd", cfg=cfg, toggles=toggles, threads=rng.choice([1, 4]), steps=rng.choice([2, 3, 4]))
+    if radiation and rng.chance(0.3):
+        make_varsources(case, rng)
+    return case
+
+
+def make_varsources(case, rng):
+    """time dependent source distribution: the copies of the source subgrids are deleted and re-created between steps,
+    while task slots, buffers and queues are recycled (a fixed step a power of two below the total time, sources that
+    live 2-3 steps and are updated more often than once per step)"""
+    cfg = case["cfg"]
+    dt = cfg["total_time"] / 128.
+    cfg.update(min_dt=dt, max_dt=dt, copy_level=rng.choice([1, 2]), niter=2,
+               varsources=dict(n=rng.choice([2, 3, 4]), lifetime=dt * rng.uniform(1.6, 3.2), update_interval=dt * rng.uniform(0.4, 0.9),
+                               seed=rng.randint(1, 10 ** 6)))
+    cfg["nbuffers"] = 27 * cfg["nsub"][0] * cfg["nsub"][1] * cfg["nsub"][2] * 6 + 600
+    case["steps"] = rng.choice([5, 6, 7])
+    case["toggles"]["varsources"] = True
+
+
+def pick_rhd(rng, i, want):
+    """an rhd case from the generator that satisfies `want` (a predicate on the case); forks of one PRNG stream"""
+    for k in range(200):
+        case = rhd_case(rng.fork("p%d" % k), i)
+        if want(case):
+            return case
+    return case
 
 
 def write_case(case, rd):
@@ -164,6 +190,8 @@ def classify_failure(err, rc, tool):
         kind = re.sub(r"0x[0-9a-f]+", "", kind)
         kind = kind.replace("ERROR: AddressSanitizer: ", "asan/").replace("runtime error: ", "ubsan/").split(" on ")[0].split(" at ")[0].strip().replace(" ", "-")[:60]
         return "%s/%s" % (kind, frame or "unknown-frame")
+    if rc == 97:   # the hooks' no-progress / lock-spin detectors: the run can never end
+        return "termination/no-progress"
     cm = re.search(r"([A-Za-z0-9_]+\.[ch]pp):[A-Za-z_~]+\(\):(\d+): Error", err or "")
     if cm:
         return "abort/%s" % cm.group(1)
@@ -199,7 +227,7 @@ def run_case(job):
                 vl = open(os.path.join(rd, "valgrind.log"), errors="replace").read()
                 m = re.search(r"==\d+== ((?:Conditional jump|Use of uninitialised|Invalid (?:read|write|free)|Mismatched free|Syscall param)[^\n]*)\n((?:==\d+==    (?:at|by)[^\n]*\n)+)", vl)
                 if m:
-                    fr = re.findall(r"(?:at|by) 0x[0-9A-F]+: ([^\n(]+?) ?\(([A-Za-z0-9_]+\.[ch]pp):(\d+)\)", m.group(2))
+                    fr = re.findall(r"(?:at|by) 0x[0-9A-F]+: ([^\n]+?) \(([A-Za-z0-9_]+\.[ch]pp):(\d+)\)", m.group(2))
                     where = ("%s@%s" % (fr[0][0].split("<")[0].split("(")[0].strip(), fr[0][1])) if fr else "unknown-frame"
                     res["viol"].append(("memcheck/%s/%s" % (m.group(1).split(" of size")[0].strip().replace(" ", "-")[:50], where),
                                         "%s leg %s: %s | %s" % (tool, leg, m.group(1), m.group(2)[:600].replace("\n", " ")), (vl[-3000:])))
@@ -251,6 +279,16 @@ def main():
                 case["toggles"]["live"] = "all"
                 case["cfg"]["ncell"] = [2 * case["cfg"]["nsub"][0], 4 * case["cfg"]["nsub"][1], 6 * case["cfg"]["nsub"][2]]
                 case["toggles"]["mask"] = False
+            if i == 5:      # radiation + time dependent sources (copies deleted between steps) + recycled task slots, 4 threads
+                case = pick_rhd(r, i, lambda c: c["cfg"]["radiation"] and not c["toggles"]["mask"])
+                if not case["toggles"].get("varsources"):
+                    make_varsources(case, r)
+                case["cfg"]["diffuse"] = "FixedValue"
+                case["threads"] = 4
+            if i == 7:      # radiation + restart: every restart constructor runs before the first photon iteration
+                case = pick_rhd(r, i, lambda c: c["cfg"]["radiation"] and not c["toggles"]["mask"])
+                case["toggles"]["restart"] = True
+                case["cfg"]["dump_interval"] = 0.
             if i == 3:
                 case["toggles"]["live"] = "surface"
                 case["cfg"]["ncell"] = [6 * case["cfg"]["nsub"][0], 2 * case["cfg"]["nsub"][1], 3 * case["cfg"]["nsub"][2]]
@@ -258,8 +296,26 @@ def main():
         for i in range(nmem):
             r = rng.fork("m%d" % i)
             case = rhd_case(r, i) if i % 2 == 0 else photo_case(r, i)
+            if i == 0:      # restarted radiation run under memcheck: members that the restart constructors leave unset
+                case = pick_rhd(r, i, lambda c: c["cfg"]["radiation"] and not c["toggles"]["mask"] and not c["toggles"].get("varsources"))
+                case["toggles"]["restart"] = True
+                case["cfg"]["dump_interval"] = 0.
+                case["steps"] = 2
+                # many subgrids, most of which no packet reaches early: what an idle thread looks at in them after the
+                # restart is whatever the restart constructors left there
+                case["cfg"]["nsub"] = [3, 3, 2]
+                case["cfg"]["ncell"] = [6, 6, 4]
+                case["cfg"]["nbuffers"] = 27 * 18 * 3 + 600
+                case["cfg"]["niter"] = 2
+            if i == 2:      # time dependent sources under memcheck (stale pointers into deleted subgrid copies)
+                case = pick_rhd(r, i, lambda c: c["cfg"]["radiation"] and not c["toggles"]["mask"])
+                if not case["toggles"].get("varsources"):
+                    make_varsources(case, r)
+                case["cfg"]["nphoton"] = 200
             # keep memcheck runs small
             case["threads"] = 1 if i % 2 == 0 else 2
+            if i == 0:
+                case["threads"] = 2   # an idle thread is what makes the others launch half-filled buffers prematurely
             if case["mode"] == "photo":
                 case["cfg"]["nphoton"] = min(case["cfg"]["nphoton"], 999)
             jobs.append((i, case, exe_hooks, root, "memcheck"))
@@ -305,7 +361,8 @@ def main():
     chk.assumptions += ["reports inside uninstrumented libraries (HDF5, OpenMP runtime, libc) that involve no repository frame are suppressed for memcheck (oracle/c12_valgrind.supp)",
                         "leaks are not part of the property (detect_leaks=0)"]
     if "--replay" not in sys.argv:
-        chk.require_nonzero(asan=tot["asan_runs"], memcheck=tot["memcheck_runs"], photo=tot["photo"], rhd=tot["rhd"])
+        chk.require_nonzero(asan=tot["asan_runs"], memcheck=tot["memcheck_runs"], photo=tot["photo"], rhd=tot["rhd"], radiation=tot["rhd_radiation"],
+                            restarts=tot["restarts"], time_dependent_sources=toggles_seen.get("varsources=True"))
     chk.finish()
 
 
